@@ -19,16 +19,18 @@ FUNCTIONS = [
     "nessai.posterior.draw_posterior_samples",
     "nessai.utils.stats.effective_sample_size",
     "nessai.evidence._BaseNSIntegralState.effective_n_posterior_samples",
+    "nessai.samplers.importancesampler.ImportanceNestedSampler.draw_posterior_samples",
 ]
 BOUNDS = {
-    "quick": dict(n_samples="1..4 (rejection), 1..4 (multinomial, explicit size), 1..3 (default size int(ESS))", ess_bounds="n<=5"),
-    "thorough": dict(n_samples="1..6 (rejection), 1..6 (multinomial, explicit size), 1..3 (default size int(ESS))", ess_bounds="n<=7"),
+    "quick": dict(n_samples="1..4 (rejection), 1..4 (multinomial, explicit size), 1..3 (default size int(ESS))", ess_bounds="n<=5", ins_method="n = 2..3 per set, rejection sampling, use_final_samples x final samples present/absent"),
+    "thorough": dict(n_samples="1..6 (rejection), 1..6 (multinomial, explicit size), 1..3 (default size int(ESS))", ess_bounds="n<=7", ins_method="n = 2..4 per set, rejection sampling, use_final_samples x final samples present/absent"),
 }
 SCOPE = "Weights w_i = exp(log_w_i) are symbolic non-negative reals (zeros = -inf log-weights allowed, not all zero, not normalised)."
 ASSUMPTIONS = [
     "np.random.rand returns values in [0,1) (each an independent uniform draw: numpy's contract)",
     "np.random.choice(n, size, p, replace=True) samples indices with the probabilities it is handed (numpy's contract); the check decides what it is handed; outcome j of the generator stands for the nested sample that a call cycling through all outcomes returns at position j",
 ]
+ASSUMPTIONS.append("ins_method units: differential_entropy (logging only) is stubbed; the sampler object is a namespace holding the five attributes the method reads; both sample sets have the same length")
 OUTSIDE = ["selection frequencies over many draws (follow from the decided acceptance region plus numpy's contract)", "weight vectors longer than the bound"]
 
 PARALLEL_UNITS = True
@@ -285,6 +287,75 @@ def make_empty_ess():
     return body
 
 
+def make_ins_method(n, use_final, has_final):
+    """`ImportanceNestedSampler.draw_posterior_samples`: the sample set and the weight vector handed on belong together."""
+    def body(ctx):
+        from types import SimpleNamespace
+        from nessai.samplers.importancesampler import ImportanceNestedSampler
+        mut = getattr(ctx, "mutant", None)
+        snp = _snp(ctx)
+        dt = object if ctx.mode == "sym" else float
+        lw_t = _weights(ctx, n)
+        lw_f = [ctx.logval(f"v{i}", positive=False) for i in range(n)]
+        if ctx.mode == "sym":
+            import z3
+            from sx.values import SymBool
+            ctx.assume(SymBool(z3.Or(*[x.num > 0 for x in lw_f])))
+        else:
+            ctx.assume(any(math.isfinite(x) for x in lw_f))
+        train, final = _samples(ctx, n), _samples(ctx, n)
+        final["tag"] += 100
+        us = [ctx.real(f"u{i}", 0) for i in range(n)]
+        for u in us:
+            ctx.assume(u < 1)
+        uarr = np.array(us, dtype=dt)
+        fake = SimpleNamespace(
+            final_samples_unit=final if has_final else None,
+            final_samples=final if has_final else None,
+            final_state=SimpleNamespace(log_posterior_weights=np.array(lw_f, dtype=dt)) if has_final else None,
+            samples=train,
+            state=SimpleNamespace(log_posterior_weights=np.array(lw_t, dtype=dt)),
+        )
+        if ctx.mode == "sym":
+            _symnp.symrandom.reset()
+            _symnp.symrandom.handlers["rand"] = lambda *shape: uarr.copy()
+            try:
+                out = ImportanceNestedSampler.draw_posterior_samples(fake, sampling_method="rejection_sampling", use_final_samples=use_final)
+            finally:
+                _symnp.symrandom.reset()
+        else:
+            real = np.random.rand
+            np.random.rand = lambda *shape: uarr.copy()
+            try:
+                out = ImportanceNestedSampler.draw_posterior_samples(fake, sampling_method="rejection_sampling", use_final_samples=use_final)
+            finally:
+                np.random.rand = real
+        sel_final = use_final and has_final
+        if mut == "swap":
+            sel_final = not sel_final
+        off = 100 if sel_final else 0
+        lw = lw_f if sel_final else lw_t
+        tags = [int(t) for t in out["tag"]]
+        ctx.prove(all(off <= t < off + n for t in tags), "posterior samples are elements of the selected sample set (independent final samples when requested and present, training samples otherwise)")
+        idx = [t - off for t in tags]
+        ctx.prove(all(a < b for a, b in zip(idx, idx[1:])), "each nested sample is returned at most once by rejection sampling")
+        w = [snp.exp(x) for x in lw]
+        wmax = w[0]
+        for x in w[1:]:
+            wmax = _symnp.smax(wmax, x) if ctx.mode == "sym" else max(wmax, x)
+        if ctx.mode == "conc":
+            for i in range(n):
+                if abs(us[i] * wmax - w[i]) <= 1e-12 * max(wmax, 1e-300):
+                    ctx.assume(False)
+        conds = True
+        for i in range(n):
+            keep = us[i] * wmax < w[i]
+            conds = conds & (keep if i in idx else ~keep if ctx.mode == "sym" else (bool(keep) if i in idx else not bool(keep)))
+        ctx.prove(conds, "sample i of the selected set is kept iff u_i < w_i / max w with the weights of the same set")
+        ctx.cover("end")
+    return body
+
+
 def units(tier):
     us = []
     nl = dict(exp_axioms="signs", fresh=True, timeout_ms=60000)
@@ -297,5 +368,10 @@ def units(tier):
     for n in ([1, 2, 3, 5] if q else [1, 2, 3, 5, 7]):
         for which in ("function", "state"):
             us.append(Unit(f"ess[n={n},{which}]", make_ess(n, which), MODS, nl, expect_cover=["end"], mutants=["bound"] if (n, which) == (2, "function") else [], twin_runs=20, witness_every=5, nproc=1))
+    stub = {"nessai.samplers.importancesampler": {"differential_entropy": lambda x: 0.0}}
+    for n in ([2, 3] if q else [2, 3, 4]):
+        for use_final, has_final in ((True, True), (True, False), (False, True)):
+            us.append(Unit(f"ins_method[n={n},use_final={use_final},has_final={has_final}]", make_ins_method(n, use_final, has_final), MODS + ["nessai.samplers.importancesampler"], nl,
+                           expect_cover=["end"], mutants=["swap"] if n == 2 else [], twin_runs=20, witness_every=5, nproc=1, extra_patches=stub))
     us.append(Unit("ess[empty]", make_empty_ess(), MODS, nl, expect_cover=["end"], twin_runs=1, nproc=1))
     return us
